@@ -160,6 +160,29 @@ def main():
     verus_fns_verified = 0
     verus_fns_total = 0
     fn_times = {}
+    # ---- every bounded native check of this property goes into ONE cargo build that runs alongside the Verus units:
+    # the checks of contracts a unit assumes (unit_extras, each with the properties it belongs to), the checks registered to
+    # run every time ('extra'), and the property's bounded stand-ins ('fallback').  All of them run on every check: a failure
+    # is a failing input for the property; a pass is never counted as proof.
+    unit_extras = load_json(os.path.join(VERIF, 'vp', 'unit_extras.json'), {})
+    nat_tests, nat_role = [], {}
+    def _add(cfgs, role):
+        for e in cfgs:
+            if e.get('module') != 'native_engine' or (e.get('tier', 'quick') == 'thorough' and tier != 'thorough'):
+                continue
+            for t in e.get('tests', []):
+                if t['name'] not in nat_role:
+                    nat_role[t['name']] = role
+                    nat_tests.append(dict(t))
+    _add([e for u in units for e in unit_extras.get(u, [])], 'bounded check of a contract the unit assumes')
+    _add(pc.get('extra', []), 'bounded check of clauses no contract decides (runs on every check)')
+    _add(pc.get('fallback', []), 'bounded stand-in for the property (runs on every check; decides when the verifier cannot)')
+    nat_future = None
+    from concurrent.futures import ThreadPoolExecutor
+    nat_pool = ThreadPoolExecutor(max_workers=1)
+    if nat_tests:
+        import native_engine as NE
+        nat_future = nat_pool.submit(NE.run, prop, tier, {'tests': nat_tests, 'timeout': 3000})
     # units are independent Verus runs: run them (and each one's vacuity variant) side by side
     def unit_task(u):
         r = R.run_unit(u)
@@ -256,19 +279,17 @@ def main():
         if vac_u and vac_u.get('vacuous'):
             undecided.append('%s: vacuous precondition (assert(false) verified) in %s' % (u, vac_u['vacuous']))
 
-    # ---- extra engines registered for this property (Kani etc.)
+    # ---- other engines registered for this property (Kani)
     bounded = []
-    unit_extras = load_json(os.path.join(VERIF, 'vp', 'unit_extras.json'), {})
-    extras = [e for u in units for e in unit_extras.get(u, [])] + list(pc.get('extra', []))
-    for extra in extras:
-        if extra.get('tier', 'quick') == 'thorough' and tier != 'thorough':
+    for extra in pc.get('extra', []):
+        if extra.get('module') == 'native_engine' or (extra.get('tier', 'quick') == 'thorough' and tier != 'thorough'):
             continue
         import importlib
         mod = importlib.import_module(extra['module'])
         er = mod.run(prop, tier, extra)
         bounded.append(er['summary'])
         for hrec in er['summary'].get('harnesses', []):
-            oname = '%s/%s [BOUNDED: %s]' % ('native' if extra['module'] == 'native_engine' else 'kani', hrec['harness'], hrec.get('bound', ''))
+            oname = 'kani/%s [BOUNDED: %s]' % (hrec['harness'], hrec.get('bound', ''))
             obligations.append(oname)
             if hrec['result'] == 'SUCCESSFUL':
                 discharged.append(oname)
@@ -277,36 +298,30 @@ def main():
             (knowns if k else violations).append((v, k))
         undecided += er.get('undecided', [])
 
-    # ---- bounded stand-in: when the verifier could not decide (changed code outside its reach: new helpers, new loops,
-    # unsupported constructs), the property-level native checks run against the real code; a failure there is a real
-    # failing input.  A pass does NOT turn 'undecided' into 'ok'.
-    fallback_used = False
-    # code the verifier does not see (outside the functions under contract) differs from the pinned tree: bounded look at it
+    # code the verifier does not see (outside the functions under contract) differs from the pinned tree
     try:
         import residue as RES
         residue_diffs = RES.changed(prop, units, ledger) if units else []
     except Exception as e:
         residue_diffs = ['residue check failed: %r' % e]
-    for rd in residue_diffs:
-        print('NOTE property=%s code outside the contracts differs from the pinned tree: %s -> bounded native checks run as well' % (prop, rd))
-    if (undecided and not violations) or tier == 'thorough' or (residue_diffs and not violations):
-        for fb in pc.get('fallback', []):
-            import importlib
-            mod = importlib.import_module(fb['module'])
-            er = mod.run(prop, tier, fb)
-            fallback_used = True
-            er['summary']['role'] = 'bounded stand-in (verifier undecided)' if undecided else ('bounded look at code outside the contracts that changed' if residue_diffs and tier != 'thorough' else 'thorough tier: bounded cross-check')
-            bounded.append(er['summary'])
-            for hrec in er['summary'].get('harnesses', []):
-                oname = 'native/%s [BOUNDED: %s]' % (hrec['harness'], hrec.get('bound', ''))
-                obligations.append(oname)
-                if hrec['result'] == 'SUCCESSFUL':
-                    discharged.append(oname)
-            for v in er.get('violations', []):
-                k = known_match(v, prop, known)
-                (knowns if k else violations).append((v, k))
-            if not undecided:
-                undecided += er.get('undecided', [])
+    for rf in sorted(set(rd.split(' (')[0] for rd in residue_diffs)):
+        print('NOTE property=%s code outside the contracts differs from the pinned tree: %s (only the bounded native checks look at it)' % (prop, rf))
+
+    # ---- the bounded native checks (started above)
+    if nat_future is not None:
+        er = nat_future.result()
+        for hrec in er['summary'].get('harnesses', []):
+            hrec['role'] = nat_role.get(hrec['harness'], '')
+            oname = 'native/%s [BOUNDED: %s]' % (hrec['harness'], hrec.get('bound', ''))
+            obligations.append(oname)
+            if hrec['result'] == 'SUCCESSFUL':
+                discharged.append(oname)
+        bounded.append(er['summary'])
+        for v in er.get('violations', []):
+            k = known_match(v, prop, known)
+            (knowns if k else violations).append((v, k))
+        undecided += er.get('undecided', [])
+    nat_pool.shutdown(wait=False)
 
     # ---- thorough tier: contract sensitivity for this property (one-line mutants must be rejected, behaviour-preserving edits
     # must stay quiet); statements about the check itself, they never change the verdict
